@@ -270,17 +270,17 @@ static void String_Resize(var self, size_t n) {
   size_t m = String_Len(self);
   s->val = realloc(s->val, n+1);
   
-  if (n > m) {
-    memset(&s->val[m], 0, n - m);
-  } else {
-    s->val[n] = '\0';
-  }
-  
 #if CELLO_MEMORY_CHECK == 1
   if (s->val is NULL) {
     throw(OutOfMemoryError, "Cannot allocate String, out of memory!");
   }
 #endif
+  
+  if (n > m) {
+    memset(&s->val[m], 0, n - m);
+  } else {
+    s->val[n] = '\0';
+  }
   
 }
 
